@@ -23,11 +23,12 @@ jvars == <<tvars, B, B2, dead>>
 
 JInit == Init /\ B = <<>> /\ B2 = <<>> /\ dead = FALSE
 
-Bd(st, rows) == [rrs |-> st.rrs, ser |-> st.ser, rows |-> rows]
+\* sg: the zone of the case is one the server signs itself (reset event, field signed)
+Bd(st, rows, sg) == [rrs |-> st.rrs, ser |-> st.ser, rows |-> rows, sg |-> sg]
 
-JReset == Reset /\ B' = <<Bd(S', e.rows)>> /\ B2' = <<>> /\ dead' = FALSE
-JMsg   == MsgStep("msg") /\ B' = Append(B, Bd(S', e.rows)) /\ UNCHANGED <<B2, dead>>
-JRMsg  == ~dead /\ MsgStep("rmsg") /\ B2' = Append(B2, Bd(S', e.rows)) /\ UNCHANGED <<B, dead>>
+JReset == Reset /\ B' = <<Bd(S', e.rows, Has("signed") /\ e.signed)>> /\ B2' = <<>> /\ dead' = FALSE
+JMsg   == MsgStep("msg") /\ B' = Append(B, Bd(S', e.rows, B[1].sg)) /\ UNCHANGED <<B2, dead>>
+JRMsg  == ~dead /\ MsgStep("rmsg") /\ B2' = Append(B2, Bd(S', e.rows, B2[1].sg)) /\ UNCHANGED <<B, dead>>
 
 Rcv == [rrs |-> FoldRRs(e.rrs), ser |-> e.ser]
 
@@ -53,7 +54,7 @@ Cut ==
        ELSE CutReport("cut", B) /\ bad' = bad + 1
     \* the continuation starts from what was really recovered, if that is a zone at all
     /\ IF e.ok /\ WellFormed(Rcv.rrs, apex)
-       THEN S' = Rcv /\ dead' = FALSE /\ B2' = <<Bd(Rcv, e.k)>>
+       THEN S' = Rcv /\ dead' = FALSE /\ B2' = <<Bd(Rcv, e.k, B[1].sg)>>
        ELSE S' = S /\ dead' = TRUE /\ B2' = <<>>
     /\ gh' = (IF Has("ghosts") THEN e.ghosts ELSE <<>>)
     /\ UNCHANGED <<cid, apex, skipping, B>>
